@@ -483,6 +483,8 @@ func (idx *MergeSetIndex) putIndexSearch(is *indexSearch) {
 	is.vrp.Reset()
 	is.idx = nil
 	is.tfs = is.tfs[:0]
+	// the pool is shared by all indexes: do not hand the deleted set of this index to the next user
+	is.deleted = nil
 	indexSearchPool.Put(is)
 }
 
